@@ -9,19 +9,20 @@ import (
 )
 
 // Value is one of:
-//   *Term            int/uint*/bool scalars (concrete = OpConst)
-//   float64          concrete floats only
-//   StrV             string (concrete or symbolic bytes, concrete length)
-//   *StructV         struct (immutable)
-//   *ArrV            array / slice backing store / heap cell contents (immutable)
-//   PtrV             pointer
-//   SliceV           slice header
-//   IfaceV           interface value
-//   *FuncV           function value / closure
-//   MapV             map handle (object id); object holds *MapObj
-//   TupleV           multi-value
-//   *IterV           range iterator state handle (object id)
-//   OpaqueV          engine-native payload carried through interpreted code
+//
+//	*Term            int/uint*/bool scalars (concrete = OpConst)
+//	float64          concrete floats only
+//	StrV             string (concrete or symbolic bytes, concrete length)
+//	*StructV         struct (immutable)
+//	*ArrV            array / slice backing store / heap cell contents (immutable)
+//	PtrV             pointer
+//	SliceV           slice header
+//	IfaceV           interface value
+//	*FuncV           function value / closure
+//	MapV             map handle (object id); object holds *MapObj
+//	TupleV           multi-value
+//	*IterV           range iterator state handle (object id)
+//	OpaqueV          engine-native payload carried through interpreted code
 type Value interface{}
 
 type StrV struct {
@@ -424,7 +425,15 @@ func samePtr(a, b PtrV) bool {
 
 // shapeSig writes a signature of the concrete shape of v (everything except
 // scalar contents), used to group outcomes for merging.
-func shapeSig(sb *strings.Builder, v Value) {
+var sigConcrete = false // per-call flag set through shapeSigMode
+
+func shapeSig(sb *strings.Builder, v Value) { shapeSigM(sb, v, false) }
+
+// shapeSigM: with conc=true concrete scalars and strings are part of the
+// signature, so merging never turns two different concrete values into a
+// symbolic one (policy "concrete", used by the text harnesses where offsets
+// and lengths must stay concrete).
+func shapeSigM(sb *strings.Builder, v Value, conc bool) {
 	switch x := v.(type) {
 	case *Term:
 		if x.sort == SBool {
@@ -432,18 +441,24 @@ func shapeSig(sb *strings.Builder, v Value) {
 		} else {
 			sb.WriteByte('i')
 		}
+		if conc && x.isConst() {
+			fmt.Fprintf(sb, "=%d", x.k)
+		}
 	case StrV:
 		fmt.Fprintf(sb, "s%d", x.length())
+		if conc && x.isConcrete() {
+			sb.WriteString("=" + x.s)
+		}
 	case *StructV:
 		sb.WriteByte('{')
 		for _, f := range x.f {
-			shapeSig(sb, f)
+			shapeSigM(sb, f, conc)
 		}
 		sb.WriteByte('}')
 	case *ArrV:
 		sb.WriteByte('[')
 		for _, f := range x.e {
-			shapeSig(sb, f)
+			shapeSigM(sb, f, conc)
 		}
 		sb.WriteByte(']')
 	case PtrV:
@@ -458,7 +473,7 @@ func shapeSig(sb *strings.Builder, v Value) {
 			sb.WriteString("I0")
 		} else {
 			sb.WriteString("I<" + x.t.String() + ">")
-			shapeSig(sb, x.v)
+			shapeSigM(sb, x.v, conc)
 		}
 	case *FuncV:
 		if x == nil {
@@ -466,7 +481,7 @@ func shapeSig(sb *strings.Builder, v Value) {
 		} else {
 			fmt.Fprintf(sb, "F%p%s(", x.fn, x.native)
 			for _, f := range x.free {
-				shapeSig(sb, f)
+				shapeSigM(sb, f, conc)
 			}
 			sb.WriteByte(')')
 		}
@@ -475,7 +490,7 @@ func shapeSig(sb *strings.Builder, v Value) {
 	case TupleV:
 		sb.WriteByte('(')
 		for _, f := range x {
-			shapeSig(sb, f)
+			shapeSigM(sb, f, conc)
 		}
 		sb.WriteByte(')')
 	case nil:
